@@ -305,13 +305,12 @@ outer:
 					packets  int
 				}{}
 				for _, s := range streamFactory.Streams {
-					if s.Flags&streams.StreamFlagsComplete != 0 {
-						continue
-					}
 					firstPacketTs := s.Packets[0].Timestamp
 					lastPacketTs := s.Packets[len(s.Packets)-1].Timestamp
 					if lastPacketTs.Before(tsTimeouted) {
-						timeoutedStreams++
+						if s.Flags&streams.StreamFlagsComplete == 0 {
+							timeoutedStreams++
+						}
 						continue
 					}
 					streamDuration := lastPacketTs.Sub(firstPacketTs)
